@@ -46,7 +46,7 @@ func (f *Oneplus) Call(s *slip.Scope, args slip.List, depth int) (result slip.Ob
 	case slip.Fixnum:
 		result = addFixnums(ta, 1)
 	case slip.Octet:
-		result = ta + 1
+		result = addFixnums(slip.Fixnum(ta), 1)
 	case slip.SingleFloat:
 		result = ta + 1.0
 	case slip.DoubleFloat:
